@@ -702,10 +702,18 @@ class Engine:
         self.entry_env = dict(env)
         self.entry_sdicts = {k: _sdict_snapshot(v) for k, v in env.items() if isinstance(v, SDict)}
         self.entry_frames = {k: _frame_snapshot(v) for k, v in env.items() if isinstance(v, Frame)}
-        for m in contract.get('modifies', []):
-            v = env.get(m)
+        for m in list(contract.get('modifies', [])) + list(case.get('modifies', [])):
+            if '.' in m:                       # 'self.thresholds': an object held in an attribute
+                base, attr = m.split('.', 1)
+                o = env.get(base)
+                v = o.attrs.get(attr) if isinstance(o, Obj) else None
+            else:
+                v = env.get(m)
             for ident in _idents_of(v):
                 self.allowed_mod.add(ident)
+            cell = getattr(v, 'cell', None)
+            if cell is not None:
+                self.allowed_mod.add(cell['ident'])
         for r in list(contract.get('requires', [])) + list(case.get('requires', [])):
             self.assume(self.spec_bool(r, env))
         if not self.feasible():
